@@ -347,14 +347,14 @@ class CHECK(vlib.Check):
             out.append(("overlap", "o|" + overlap_case(rng, rng.choice(["d", "some", "some"]))))
         for _ in range(2 if quick else 12):
             out.append(("overlap-all", "o|" + overlap_case(rng, "all")))
-        n = 220 if quick else 3000
+        n = 220 if quick else 1500
         for i in range(n):
             g = Gen(rng, hostile=rng.choice([0.2, 0.35, 0.5]), priv_hosts=(i % 3 == 0), quiet=(i % 10 == 9), filters=(i % 4 != 3))
             out.append(("random", "r|" + g.case(rng.choice([6, 10, 14, 20]), rng.choice([2, 2, 3, 4]))))
-        for i in range(45 if quick else 500):
+        for i in range(45 if quick else 250):
             g = Gen(rng, hostile=rng.choice([0.2, 0.4]), priv_hosts=(i % 4 == 0), quiet=False, filters=(i % 3 != 2))
             out.append(("cut-some", "c|" + g.case(rng.choice([4, 6, 9, 12]), rng.choice([2, 3, 3]), cut="some")))
-        for i in range(3 if quick else 40):
+        for i in range(3 if quick else 15):
             g = Gen(rng, hostile=0.3, priv_hosts=False, quiet=False, filters=False)
             out.append(("cut-all", "c|" + g.case(rng.choice([3, 5, 7]), rng.choice([2, 3]), cut="all")))
         # INSERTORDEREDDATA / REORDERDATA / ordered indices: not in the Coq model; the implementation alone, judged by the harness's
@@ -364,7 +364,7 @@ class CHECK(vlib.Check):
         return out
 
     def gen_ordered(self, rng, tier):
-        n = 60 if tier == "quick" else 800
+        n = 60 if tier == "quick" else 300
         out = ["a:H;a:H;p:1:0:/*/*/*&/*/*/*/*;s:0:0:x=1;io:0:x:-=1&-=2&I0=3;ro:0:x/I1=I0;io:0:/H/1&../1&/*/*:-=7;ro:0:/H/1/*=I0;s:1:0:y=1;io:1:y:-=1;ro:0:../1/y/*=&/*/*/y/I0=;d:0",
                "a:H;a:G;s:1:0:q=1;io:1:q:-=1&-=2;p:0:0:/*/*/q/*;io:0:/G/1/q&*:-=5;ro:0:/G/1/q/I0=I1&/*/*/*/*=I1;x:1:some:io~q~I0=9+ro~q/I2=I0+r~0~q/I1"]
         for i in range(n):
